@@ -38,5 +38,9 @@ mod c04;
 mod builder;
 #[cfg(kani)]
 mod c16;
+#[cfg(kani)]
+mod blayout;
+#[cfg(kani)]
+mod c06cfg;
 #[cfg(all(kani, verif_native))]
 mod smtreplay;
